@@ -112,6 +112,31 @@ PROGFUZZ = {
         assumptions=["rustc compiles the generated crate faithfully", "reference evaluator and its own aggregator definitions are correct",
                      "mean is only used on small integers (sums exact in f64) and cast to i32"],
     ),
+    "C02": dict(
+        quick=dict(programs=72, cases=5), thorough=dict(programs=720, cases=12),
+        level="exploration",
+        rule=("Programs from the full grammar (relations, lattices, negation, aggregation), each printed as ascent! (reference form), "
+              "ascent_par!, ascent_par! + #![inter_rule_parallelism] and (every third) ascent_run_par!. Every parallel form runs in "
+              "explicit rayon pools of 1, 2, 3, 4, 8 and 16 threads, several repetitions per pool, half of them with seeded "
+              "perturbation (yield / spin / sleep) at the hook points in the concurrent insert paths and in the generated head-update "
+              "code, 4 cases in flight at once (oversubscription). Oracle: relation sets, lattice values and row multisets equal the "
+              "reference evaluator's (and hence the serial program's, which is checked against the same oracle); a panic is a "
+              "violation; a hang trips the watchdog (exit 2). Non-trivial: pool size >= 2 and >= 1 head tuple / lattice key derived "
+              ">= 2 times within one round (two workers can race on it); distinct (program text, input) pairs."),
+        assumptions=["thread interleavings are sampled (perturbation + pool sweep + oversubscription), not enumerated",
+                     "rustc compiles the generated crate faithfully", "the reference evaluator is correct"],
+    ),
+    "C05": dict(
+        quick=dict(programs=96, cases=12), thorough=dict(programs=960, cases=30),
+        level="exploration",
+        rule=("Programs built to maximise re-derivation: duplicated rules, two head clauses into the same relation, derived relations "
+              "that also receive input facts, projection rules (many body matches, <= 2 distinct head tuples), inputs containing caller "
+              "duplicates; serial and ascent_par! (pools 1,2,3,4,8,16 with seeded perturbation). Oracle on the dumped rows: the row "
+              "multiset of every relation = multiset(input rows) + set(reference result minus input); one row per lattice key; no input "
+              "row lost. The same row check runs inside every other progfuzz property. Non-trivial: >= 1 tuple derived twice within a "
+              "round or re-derived in a later round (or already an input); distinct (program text, input) pairs."),
+        assumptions=["thread interleavings are sampled, not enumerated", "rustc compiles the generated crate faithfully", "the reference evaluator is correct"],
+    ),
 }
 
 
@@ -173,7 +198,7 @@ def merge_progfuzz(prop, tier, seed, run):
     cfg = run["cfg"]
     cov = dict(evaluations=0, distinct_nontrivial=0, rule=cfg["rule"], samples=[], programs=run["plan"]["programs"],
                program_runs=0, too_big_skipped=0, distribution={}, groups=run["plan"]["groups"],
-               excluded_by_known_findings={})
+               excluded_by_known_findings=run["plan"].get("excluded_by_known_findings", {}))
     violations = []
     infra = []
     for r in run["results"]:
